@@ -93,8 +93,14 @@ def frame_case(nrecv, ending, sched, pre, stream, expect=None):
 def wf_cases(rng, dist, replies, tail, maxcut):
     """all the schedules for one stream of well-formed replies"""
     stream = b"".join(r.render() for r in replies) + tail
-    expect = " ".join(r.expected() for r in replies) + " | left=" + H(tail)
     n = len(replies)
+    k421 = next((i for i, r in enumerate(replies) if int(r.d3) == 421), None)
+    if k421 is None:
+        expect = " ".join(r.expected() for r in replies) + " | left=" + H(tail)
+    else:
+        # 421 ends the connection: it is returned like any reply, what follows is dropped, a further step fails
+        expect = " ".join([r.expected() for r in replies[:k421 + 1]] + (["exn"] if k421 + 1 < n else [])) + " | left=-"
+        dist.add("reply:421-inside-stream")
     out = ["wfcheck %s %s %s" % (";".join(r.encode() for r in replies), H(stream[:len(stream) - len(tail)]),
                                  "_".join(r.expected() for r in replies))]
     mk = lambda sched, pre=b"", st=None: frame_case(n, rng.choice(["eof", "err"]), sched, pre, stream if st is None else st, expect)
